@@ -209,6 +209,9 @@ LEVEL_TEXT['C13'] += ' Added (unit waitloop): the loop of the wait built-in look
 TECH['C13'] += ' + wait_while_running'
 LEVEL_TEXT['C09'] += ' Added (unit gettty): the descriptor the shell keeps on its terminal is opened with close-on-exec, moved to the internal range at once, remembered only as the move returned it and opened at most once.'
 TECH['C09'] += ' + Env::get_tty (ghost log of open / move_fd_internal calls)'
+LEVEL_TEXT['C11'] += ' Added (unit sigcatch): every signal of every batch the system reports is handed to the trap table once, in order (Env::wait_for_signals / wait_for_signal).'
+TECH['C11'] += ' + Env::wait_for_signals / wait_for_signal'
+TECH['C16'] += ' + Env::get_or_create_variable (allexport)'
 
 def main():
     checks = []
